@@ -275,10 +275,11 @@ Definition diff_one (fsub : Z -> Z -> Z) (src dest : option handle) (aid from un
 (** ** sum *)
 (** [sumTimeSeriesListForArchive]: values of the first file, then [Value.Add] of each further
     file in glob order; window and step of the first file *)
+Definition map2_vadd (F : fops) (acc vs : list Z) : list Z :=
+  map (fun ab => vadd F (fst ab) (snd ab)) (combine acc vs).
 Definition sum_series (F : fops) (first : series) (rest : list series) : series :=
   mkSeries (s_from first) (s_until first) (s_step first)
-    (fold_left (fun acc s => map (fun ab => vadd F (fst ab) (snd ab)) (combine acc (s_vals s)))
-               rest (s_vals first)).
+    (fold_left (fun acc s => map2_vadd F acc (s_vals s)) rest (s_vals first)).
 
 Definition heads {A} (ll : list (list A)) : list A :=
   concat (map (fun l => match l with x :: _ => [x] | [] => [] end) ll).
